@@ -151,8 +151,9 @@ def family_L(rng, n=None, max_lag=3, max_lead=2, measurement=None, unit_root=Fal
 # ------------------------------------------------------------------------------
 
 
-def family_N(rng, n=None, max_lag=2, max_lead=2, measurement=None, forward_share=0.35, log_prob=None):
-    """nonlinear, flat steady state xbar known by construction"""
+def family_N(rng, n=None, max_lag=2, max_lead=2, measurement=None, forward_share=0.35, log_prob=None, exog=False):
+    """nonlinear, flat steady state xbar known by construction; exog=True adds an exogenous variable ex0 (steady value 0) that
+    enters some transition equations additively at shifts 0 / -1, so that a path given for it in the data moves the simulation"""
     n = int(rng.integers(1, 5)) if n is None else n
     names = [f"v{i}" for i in range(n)]
     shocks = [f"e{i}" for i in range(n)]
@@ -222,6 +223,8 @@ def family_N(rng, n=None, max_lag=2, max_lead=2, measurement=None, forward_share
         meta["types"].append(typ)
         for _ in range(int(rng.integers(0, 3))):
             terms.append(small_nonlinear(i))
+        if exog and (i == 0 or rng.random() < 0.4):
+            terms.append(E.bin_("*", E.num(_r(rng, 0.2, 0.9, 2)), E.var("ex0", -int(rng.integers(0, 2)))))
         rhs = E.add_all(terms)
         spec["params"].append({"name": f"kcal{i}", "desc": "", "value": 0.0})
         rhs = E.bin_("+", rhs, E.par(f"kcal{i}"))
@@ -250,6 +253,9 @@ def family_N(rng, n=None, max_lag=2, max_lead=2, measurement=None, forward_share
     # ---- calibrate kcal so that xbar is the steady state
     params = {p["name"]: p["value"] for p in spec["params"]}
     data = {nm: np.full(16, xbar[nm]) for nm in names}
+    if exog:
+        spec["exog"].append({"name": "ex0", "desc": "", "log": False})
+        data["ex0"] = np.zeros(16)
     for s in shocks:
         data[s] = np.zeros(16)
     for q in spec["mshocks"]:
